@@ -613,3 +613,6 @@ R.contract(
     replayable=False,
     max_paths=60000,
 )
+
+# `st run` (the wiring of the command-line options into the run configuration) is verified in C13's module; its C07_ clauses belong to this property: the same job runs here.
+SHARED_JOBS = [("C13", "schemathesis.cli.commands.run:run#wiring")]
